@@ -82,61 +82,8 @@ func checkWLPassword(w WLCase, kept []string, p *spg.Password, sepReturns []stri
 		return "atom-count" + suffix, fmt.Sprintf("%d atoms for Length %d: %q", len(atoms), L, atoms)
 	}
 	// capitalisation positions
-	isKept := func(a string) bool { return keptSet[a] }
-	isTitle := func(a string) bool { return titleSet[a] }
-	switch w.Scheme {
-	case "none":
-		for i, a := range atoms {
-			if !isKept(a) {
-				return "atom-not-a-list-word", fmt.Sprintf("scheme none: atom %d %q is not a word of the list", i, a)
-			}
-		}
-	case "first":
-		for i, a := range atoms {
-			if i == 0 && !isTitle(a) {
-				return "capitalisation-first", fmt.Sprintf("scheme first: atom 0 %q is not a title-cased list word", a)
-			}
-			if i > 0 && !isKept(a) {
-				return "capitalisation-first", fmt.Sprintf("scheme first: atom %d %q is not a plain list word", i, a)
-			}
-		}
-	case "all":
-		for i, a := range atoms {
-			if !isTitle(a) {
-				return "capitalisation-all", fmt.Sprintf("scheme all: atom %d %q is not a title-cased list word", i, a)
-			}
-		}
-	case "one":
-		ok := false
-		for j := range atoms {
-			if !isTitle(atoms[j]) {
-				continue
-			}
-			rest := true
-			for i, a := range atoms {
-				if i != j && !isKept(a) {
-					rest = false
-				}
-			}
-			if rest {
-				ok = true
-			}
-		}
-		if !ok {
-			return "capitalisation-one", fmt.Sprintf("scheme one: atoms %q are not list words with exactly one of them title-cased", atoms)
-		}
-	case "random":
-		for i, a := range atoms {
-			if !isKept(a) && !isTitle(a) {
-				return "atom-not-a-list-word", fmt.Sprintf("atom %d %q is neither a list word nor its title-cased form", i, a)
-			}
-		}
-	default: // a string that is none of the five schemes selects no position
-		for i, a := range atoms {
-			if !isKept(a) {
-				return "capitalisation-unknown-scheme", fmt.Sprintf("scheme %q is not one of the five schemes and selects no position, but atom %d %q is not a word of the list as listed", w.Scheme, i, a)
-			}
-		}
+	if cl, msg := capsOK(w.Scheme, atoms, keptSet, titleSet); cl != "" {
+		return cl, msg
 	}
 	// expected separators
 	var gap []string
@@ -319,4 +266,66 @@ func c05Case(c *Ctx) {
 		}
 		_ = strings.Join
 	}
+}
+
+// capsOK checks the atoms against the positions the capitalisation scheme selects.
+func capsOK(scheme string, atoms []string, keptSet, titleSet map[string]bool) (class, msg string) {
+	w := struct{ Scheme string }{scheme}
+	isKept := func(a string) bool { return keptSet[a] }
+	isTitle := func(a string) bool { return titleSet[a] }
+	switch w.Scheme {
+	case "none":
+		for i, a := range atoms {
+			if !isKept(a) {
+				return "atom-not-a-list-word", fmt.Sprintf("scheme none: atom %d %q is not a word of the list", i, a)
+			}
+		}
+	case "first":
+		for i, a := range atoms {
+			if i == 0 && !isTitle(a) {
+				return "capitalisation-first", fmt.Sprintf("scheme first: atom 0 %q is not a title-cased list word", a)
+			}
+			if i > 0 && !isKept(a) {
+				return "capitalisation-first", fmt.Sprintf("scheme first: atom %d %q is not a plain list word", i, a)
+			}
+		}
+	case "all":
+		for i, a := range atoms {
+			if !isTitle(a) {
+				return "capitalisation-all", fmt.Sprintf("scheme all: atom %d %q is not a title-cased list word", i, a)
+			}
+		}
+	case "one":
+		ok := false
+		for j := range atoms {
+			if !isTitle(atoms[j]) {
+				continue
+			}
+			rest := true
+			for i, a := range atoms {
+				if i != j && !isKept(a) {
+					rest = false
+				}
+			}
+			if rest {
+				ok = true
+			}
+		}
+		if !ok {
+			return "capitalisation-one", fmt.Sprintf("scheme one: atoms %q are not list words with exactly one of them title-cased", atoms)
+		}
+	case "random":
+		for i, a := range atoms {
+			if !isKept(a) && !isTitle(a) {
+				return "atom-not-a-list-word", fmt.Sprintf("atom %d %q is neither a list word nor its title-cased form", i, a)
+			}
+		}
+	default: // a string that is none of the five schemes selects no position
+		for i, a := range atoms {
+			if !isKept(a) {
+				return "capitalisation-unknown-scheme", fmt.Sprintf("scheme %q is not one of the five schemes and selects no position, but atom %d %q is not a word of the list as listed", w.Scheme, i, a)
+			}
+		}
+	}
+	return "", ""
 }
